@@ -62,7 +62,9 @@ func flight5ClientAuthPackets(
 	}
 
 	signatureScheme, err := signaturehash.SelectSignatureScheme13(
-		certificateRequestSignatureSchemes(certificateRequest),
+		dtlsflight.CommonSignatureSchemes(
+			certificateRequestSignatureSchemes(certificateRequest), flightCtx.cfg.LocalSignatureSchemes,
+		),
 		signer,
 	)
 	if err != nil {
